@@ -291,6 +291,12 @@ class Ctx(object):
             self.flag_inconclusive('fewer than two distinct non-trivial cases were evaluated')
         # replays
         rdir = os.path.join(VERIF, 'replays', self.prop)
+        if not self.replay and os.path.isdir(rdir):
+            for fn in os.listdir(rdir):       # replays of earlier runs of this property are stale
+                try:
+                    os.unlink(os.path.join(rdir, fn))
+                except OSError:
+                    pass
         for sig, v in self.violations.items():
             os.makedirs(rdir, exist_ok=True)
             path = os.path.join(rdir, hashlib.sha1(sig.encode()).hexdigest()[:16] + '.json')
